@@ -339,3 +339,19 @@ def error_specifications_and_input_shapes_agree(h, n, d):
         ms, ss = g1(q[0])
         h.eq("single point as 1-D array: same mean", ms[0], m1[0])
         h.eq("single point as 1-D array: same sigma", ss[0] ** 2, s1[0] ** 2)
+
+
+@unit("C02", quick=[dict(key=k, n=2, d=1) for k in ("SE", "RQ", "SE+WN", "SE+RQ", "CP2", "CP3")] + [dict(key="SE", n=2, d=2), dict(key="RQ", n=2, d=2)],
+      thorough=[dict(key=k, n=3, d=1) for k in ("CP2", "CP3", "CP4", "CP(SE,RQ)")], cost=3)
+def one_covariance_function_behind_both_entry_points(h, key, n, d):
+    """the closed form is stated for one covariance function k: the regressor takes K_xx from build_covariance and K_qx,
+    K_qq from __call__, so the two entry points of every shipped kernel must be the same function (off the diagonal, where
+    the noise kernels add their documented terms) and __call__ must be symmetric in its two point sets"""
+    from harness import c10
+    cv, spec, K, X, th = c10._setup(h, key, n, d)
+    B = np.asarray(K.build_covariance(th))
+    C = np.asarray(K(X, X, th))
+    off = [(i, j) for i in range(n) for j in range(n) if i != j]
+    h.eq("build_covariance == __call__(x, x) off the diagonal", np.array([B[i, j] for i, j in off], dtype=B.dtype), np.array([C[i, j] for i, j in off], dtype=C.dtype))
+    Q = h.real("q", (1, d))
+    h.eq("K(q, x) == K(x, q)^T", K(Q, X, th), np.asarray(K(X, Q, th)).T)
